@@ -88,6 +88,33 @@ theorem attach_same {w w' : World} {src dst : Nat} {cs : List (Nat × Nat)}
   · injection h with h; subst h; exact ⟨Same.refl _, rfl⟩
   · exact bankSend_same h
 
+/-- attaching funds touches only `bank`: the factory's code-id configuration (and the environment's) is unchanged -/
+theorem bankMoveList_codes {src dst : Nat} : ∀ {cs : List (Nat × Nat)} {w w' : World},
+    bankMoveList w src dst cs = .ok w' →
+      w'.pairCode = w.pairCode ∧ w'.tokenCode = w.tokenCode ∧ w'.envPairCode = w.envPairCode ∧
+        w'.envTokenCode = w.envTokenCode
+  | [], w, w', h => by
+    simp only [bankMoveList] at h; injection h with h; subst h; exact ⟨rfl, rfl, rfl, rfl⟩
+  | (d, amt) :: cs, w, w', h => by
+    simp only [bankMoveList, bind_ok_iff] at h
+    obtain ⟨w1, h1, h2⟩ := h
+    obtain ⟨_, rfl⟩ := bankMove1_ok h1
+    have k := bankMoveList_codes h2
+    exact k
+
+theorem attach_codes {w w' : World} {src dst : Nat} {cs : List (Nat × Nat)}
+    (h : attach w src dst cs = .ok w') :
+    w'.pairCode = w.pairCode ∧ w'.tokenCode = w.tokenCode ∧ w'.envPairCode = w.envPairCode ∧
+      w'.envTokenCode = w.envTokenCode := by
+  unfold attach at h
+  split at h
+  · injection h with h; subst h; exact ⟨rfl, rfl, rfl, rfl⟩
+  · unfold bankSend at h
+    dsimp only at h
+    split at h
+    · cases h
+    · exact bankMoveList_codes h
+
 /-- a single-coin bank send: the form every payout and every router hop uses -/
 theorem bankSend_single {w w' : World} {src dst d amt : Nat} (h : bankSend w src dst [(d, amt)] = .ok w') :
     amt ≠ 0 ∧ bankMove1 w src dst d amt = .ok w' := by
